@@ -3,3 +3,9 @@ HARNESSES = {
     'BytesTwice': dict(split={'mode': 3}),
     'RendererReset': dict(),
 }
+
+BOUNDS = {
+    'EncoderReset': 'arbitrary dirty Encoder state (mode, error, pending verb, selectors, LOD, both resolution flags, buffer contents), Reset with a symbolic palette entry, then K arbitrary calls (quick 1, thorough 2)',
+    'RendererReset': 'arbitrary dirty Renderer state (all registers, palette, selectors, LOD, smooth memory, disabled flag, viewBox), Reset, then a well-formed program using register reads and smooth verbs',
+}
+OUTSIDE = 'programs longer than K after Reset as a whole (field equality right after Reset is the inductive step)'
